@@ -9,6 +9,9 @@ import (
 	"sync/atomic"
 
 	ledger "github.com/formancehq/ledger/internal"
+	"github.com/formancehq/ledger/internal/engine/command"
+	"github.com/formancehq/ledger/xverif/lib/engineh"
+	"github.com/formancehq/ledger/xverif/lib/memstore"
 	"github.com/formancehq/ledger/internal/storage/ledgerstore"
 	"github.com/formancehq/ledger/xverif/lib/evid"
 	"github.com/formancehq/stack/libs/go-libs/bun/bunpaginate"
@@ -249,13 +252,65 @@ func c13() int {
 		}
 		frontier = next
 	}
+	// (3) entries as the engine really writes them: every history of <= 2 (thorough 3) operations over all write kinds,
+	// each with and without an idempotency key, on the real Commander; every persisted entry is read back and re-verified
+	// against its predecessor.
+	ops := engOps()
+	histLen := 2
+	if rep.Thorough() {
+		histLen = 3
+	}
+	var hists [][]int
+	var rec func(cur []int)
+	rec = func(cur []int) {
+		if len(cur) > 0 {
+			hists = append(hists, append([]int{}, cur...))
+		}
+		if len(cur) == histLen {
+			return
+		}
+		for i := range ops {
+			rec(append(cur, i))
+		}
+	}
+	rec(nil)
+	var engineEntries int64
+	evid.ParallelFor(len(hists), workers(), func(w, hi int) {
+		for _, withIK := range []bool{false, true} {
+			st := memstore.New()
+			e := engineh.Start(st, nil)
+			var names []string
+			for i, o := range hists[hi] {
+				ik := ""
+				if withIK {
+					ik = fmt.Sprintf("key-%d", i)
+				}
+				func() {
+					defer func() { recover() }()
+					ops[o].Run(e, command.Parameters{IdempotencyKey: ik})
+				}()
+				names = append(names, ops[o].Name)
+			}
+			e.Stop()
+			var prev *ledger.ChainedLog
+			for i, l := range st.Snapshot() {
+				atomic.AddInt64(&engineEntries, 1)
+				atomic.AddInt64(&transitions, 1)
+				if kind, why := c13RoundTrip(l, prev); why != "" {
+					rep.Violation("engine-"+kind+":"+l.Type.String(), fmt.Sprintf("entry %d written by the engine (history %v, idempotency keys %v): %s", i, names, withIK, why), map[string]interface{}{"engine": "logshapes", "history": names, "ik": withIK})
+				}
+				prev = l
+			}
+		}
+	})
 	cov := evid.Coverage{
+		"engine_written_entries":        int(engineEntries),
 		"states":                        int(states),
 		"transitions":                   int(transitions),
 		"traces_validated_against_impl": int(transitions),
 		"samples":                       samples.Got,
 		"exhaustive":                    true,
-		"rule":                          fmt.Sprintf("states = distinct chained entries (by hash); transitions = entries appended and round-tripped; every shape of the product (4 log types x target types x dates x timestamps x amounts x metadata x keys, %d shapes) as first and as second entry, plus BFS over all chains of length <= %d over a %d-shape alphabet; every transition is executed on the repository's constructors, ChainLog, JSON codec and store-row conversion", len(all), maxLen, len(alpha)),
+		"rule":                          fmt.Sprintf("states = distinct chained entries (by hash); transitions = entries appended and round-tripped; every shape of the product (4 log types x target types x dates x timestamps x amounts x metadata x keys, %d shapes) as first and as second entry, plus BFS over all chains of length <= %d over a %d-shape alphabet; plus every entry persisted by the real Commander over all operation histories up to a length bound with and without idempotency keys; every transition is executed on the repository's constructors, ChainLog, JSON codec and store-row conversion", len(all), maxLen, len(alpha)),
 		"shapes":                        len(all),
 		"shape_kinds":                   kinds.M,
 	}
